@@ -95,6 +95,11 @@ def concretise(abstract, rnd):
     count = {b: 0 for b in BUCKETS}
     known = {b: [] for b in BUCKETS}      # handles of events whose id the caller knows (single inserts)
     mver = 0
+    if rnd.random() < 0.15:
+        # the store is created beside a legacy database: the migration is the first operation of the history
+        n = rnd.choice([0, 3, 30, 49, 50, 51, 70])
+        ops.append({"op": "migrate", "n": n})
+        exists["A"], count["A"] = True, n
     for a in abstract:
         o, n = a["op"], a["n"]
         b = rnd.choice(BUCKETS)
@@ -218,14 +223,36 @@ def random_abstract(rnd):
 # -------------------------------------------------------------------------------------------------
 # execution
 
+def migrated_path(workdir):
+    """where the default (testing profile) SQLite store lives when XDG_DATA_HOME = workdir/xdg"""
+    return os.path.join(workdir, "xdg", "activitywatch", "aw-server", "sqlite-testing.v1.db")
+
+
 class Runner:
-    def __init__(self, kind, path):
+    def __init__(self, kind, path, migrate_n=None):
+        """migrate_n: the store is the default-location SQLite store created for the first time beside a legacy
+        peewee database holding one bucket 'A' with migrate_n events (the migration is the history's first operation)"""
         from aw_core.models import Event
         self.Event = Event
         self.kind, self.path = kind, path
-        self.ds = mkds(kind, path)
         self.seq = 0
         self.tag = 0
+        self.migrated = None
+        if migrate_n is not None:
+            from aw_datastore import Datastore
+            from aw_datastore.storages import PeeweeStorage, SqliteStorage
+            os.environ["XDG_DATA_HOME"] = os.path.join(os.path.dirname(path), "xdg")
+            legacy = Datastore(PeeweeStorage, testing=True)
+            lb = legacy.create_bucket("A", "t", "c", "h", name="m0")
+            evs = [self.ev() for _ in range(migrate_n)]
+            if evs:
+                lb.insert([e for e, _ in evs])
+            legacy.storage_strategy.db.close()
+            self.ds = Datastore(SqliteStorage, testing=True)      # default location: runs the migration
+            self.path = migrated_path(os.path.dirname(path))
+            self.migrated = [{"k": "bcreate", "b": "A", "m": "m0"}] + [{"k": "ins", "b": "A", "t": t} for _, t in evs]
+        else:
+            self.ds = mkds(kind, path)
         self.ids = {}        # op index of a single insert -> (id, tag)
         self.bytag = {}      # bucket -> {tag: id} learnt from reads and single inserts
         self.live = {}       # bucket -> {tag: seq}: which tags the caller has written and not removed (timestamps strictly increase)
@@ -260,6 +287,17 @@ class Runner:
         for i, op in enumerate(ops):
             cur[0] = nlog[0]
             o = op["op"]
+            if o == "migrate":
+                # happened in the constructor (before statements could be observed)
+                w = self.migrated or []
+                lv = self.live.setdefault("A", {})
+                for x in w:
+                    if x["k"] == "ins":
+                        lv[x["t"]] = x["t"]
+                if log is not None:
+                    log.append(dict(op, writes=w, raised="none"))
+                nlog[0] += 1
+                continue
             b = op.get("b")
             w = []
             raised = "none"
@@ -428,13 +466,19 @@ def record_history(kind, ops, root, rnd, nkills):
     for f in os.listdir(root):
         p = os.path.join(root, f)
         shutil.rmtree(p) if os.path.isdir(p) else os.remove(p)
-    dbp = os.path.join(root, "dry.db")
+    mig = ops[0]["n"] if ops and ops[0]["op"] == "migrate" and kind == "sqlite" else None
+    if ops and ops[0]["op"] == "migrate" and kind != "sqlite":
+        ops = [{"op": "create", "b": "A", "m": "m0"}] + ([{"op": "insert_many", "b": "A", "n": ops[0]["n"]}] if ops[0]["n"] else []) + ops[1:]
+    drydir = os.path.join(root, "dry")
+    os.mkdir(drydir)
+    dbp = os.path.join(drydir, "dry.db")
+    real_dbp = migrated_path(drydir) if mig is not None else dbp
     snapdir = os.path.join(root, "snaps")
     os.mkdir(snapdir)
 
     def dry():
         FakeDT.off = timedelta(0)
-        rn = Runner(kind, dbp)
+        rn = Runner(kind, dbp, mig)
         stm = []
 
         run = [None, 0]
@@ -452,8 +496,8 @@ def record_history(kind, ops, root, rnd, nkills):
             d = os.path.join(snapdir, str(k))
             os.mkdir(d)
             for suf in ("", "-wal"):
-                if os.path.exists(dbp + suf):
-                    shutil.copyfile(dbp + suf, os.path.join(d, "c.db" + suf))
+                if os.path.exists(real_dbp + suf):
+                    shutil.copyfile(real_dbp + suf, os.path.join(d, "c.db" + suf))
             stm.append((k, opi, sql.split()[0].upper() if sql.split() else "?"))
 
         log = []
@@ -464,7 +508,7 @@ def record_history(kind, ops, root, rnd, nkills):
     if res is None or "error" in res:
         raise RuntimeError("dry run of history failed: %s\n%s" % (ops, res and res["error"]))
     log, stm = res["log"], res["stm"]
-    final = observe(kind, dbp)
+    final = observe(kind, real_dbp)
     obs = []
     for k, opi, verb in stm:
         obs.append({"k": k, "op": opi, "how": "files-at-statement", "st": observe(kind, os.path.join(snapdir, str(k), "c.db"))})
@@ -474,12 +518,15 @@ def record_history(kind, ops, root, rnd, nkills):
     pick = set(ks[:1] + ks[-1:]) | set(rnd.sample(ks, min(len(ks), nkills)))
     opof = {s[0]: s[1] for s in stm}
     for k in sorted(pick):
-        p2 = os.path.join(root, "kill%d.db" % k)
+        kd = os.path.join(root, "kill%d" % k)
+        os.mkdir(kd)
+        p2 = os.path.join(kd, "k.db")
+        real_p2 = migrated_path(kd) if mig is not None else p2
         pid = os.fork()
         if pid == 0:
             try:
                 FakeDT.off = timedelta(0)
-                rn = Runner(kind, p2)
+                rn = Runner(kind, p2, mig)
 
                 def killer(kk, opi, sql, k=k):
                     if kk == k:
@@ -489,10 +536,8 @@ def record_history(kind, ops, root, rnd, nkills):
             finally:
                 os._exit(0)
         os.waitpid(pid, 0)
-        obs.append({"k": k, "op": opof[k], "how": "sigkill", "st": observe(kind, p2)})
-        for suf in ("", "-wal", "-shm"):
-            if os.path.exists(p2 + suf):
-                os.remove(p2 + suf)
+        obs.append({"k": k, "op": opof[k], "how": "sigkill", "st": observe(kind, real_p2)})
+        shutil.rmtree(kd, ignore_errors=True)
     obs.sort(key=lambda o: (o["k"], o["how"]))
     obs.append({"k": len(stm), "op": len(log), "how": "exit-without-shutdown", "st": final})
     # flatten writes
